@@ -58,8 +58,14 @@ def unit_quats(n):
     return np.array(qs)
 
 
+_START = [0]
+
+
 def latin(F, n, slots, stride=7):
-    return np.array([[F[(k + j * stride) % len(F)] for j in range(slots)]
+    """row k, slot j -> F[start + k + j*stride]; _START rotates which value
+    comes FIRST (first row / first field of a file)"""
+    s0 = _START[0]
+    return np.array([[F[(s0 + k + j * stride) % len(F)] for j in range(slots)]
                      for k in range(n)])
 
 
@@ -311,22 +317,49 @@ def run_bag(stamps, frame_id, wd):
     p = os.path.join(wd, "b_%d.bag" % os.getpid())
     if os.path.exists(p):
         os.remove(p)
+    # as evo_traj --save_as_bag does with several inputs: further
+    # trajectories go into the same bag under their own topics
+    others = {}
+    for k, name in enumerate(("/second", "/ref")):
+        m = 1 + (n + k) % 3
+        others[name] = PoseTrajectory3D(
+            latin(F, m, 3, stride=17 + k), unit_quats(m),
+            np.array([stamps[0] + 0.5 * (j + 1) + k for j in range(m)]))
     w = Writer(p)
     w.open()
     try:
         fi.write_bag_trajectory(w, t, "/traj", frame_id)
+        for name, o in others.items():
+            fi.write_bag_trajectory(w, o, name, frame_id + "_o")
     finally:
         w.close()
     rd = Reader(p)
     rd.open()
     try:
         b = fi.read_bag_trajectory(rd, "/traj")
+        back = {}
+        for name in others:
+            try:
+                back[name] = fi.read_bag_trajectory(rd, name)
+            except Exception as e:
+                back[name] = e
     finally:
         rd.close()
     os.remove(p)
     msgs = []
     if b.num_poses != n:
         return ["bag: %d poses -> %d" % (n, b.num_poses)]
+    for name, o in others.items():
+        bo = back[name]
+        if isinstance(bo, Exception):
+            msgs.append("bag: trajectory written under %s cannot be read "
+                        "back (%s: %s)" % (name, type(bo).__name__, bo))
+        elif bo.num_poses != o.num_poses:
+            msgs.append("bag: %s has %d poses, %d were written" %
+                        (name, bo.num_poses, o.num_poses))
+        else:
+            msgs += diff_bits(o.positions_xyz, bo.positions_xyz,
+                              "bag positions of " + name)
     msgs += diff_bits(xyz, b.positions_xyz, "bag positions")
     msgs += diff_bits(quat, b.orientations_quat_wxyz, "bag quaternions")
     if b.meta.get("frame_id") != frame_id:
@@ -382,7 +415,26 @@ def shard_run(arg):
                         case = {"fmt": "tum", "n": n, "mode": mode, "w": wk,
                                 "r": rk}
                         rec(case, safe(run_tum, F, n, mode, wk, rk, wd), 8 * n)
+        # every value of the alphabet as the FIRST field of the FIRST row
+        # (sign, exponent notation, zero ... in the position where a reader
+        # might look for a header)
+        for start in range(len(F)):
+            case = {"fmt": "tum", "n": 2, "mode": "quat", "w": "str",
+                    "r": "str", "start": start}
+            _START[0] = start
+            try:
+                rec(case, safe(run_tum, F, 2, "quat", "str", "str", wd), 16)
+            finally:
+                _START[0] = 0
     elif part == "kitti":
+        for start in range(len(F)):
+            case = {"fmt": "kitti", "n": 2, "mode": "se3", "w": "str",
+                    "r": "str", "start": start}
+            _START[0] = start
+            try:
+                rec(case, safe(run_kitti, F, 2, "se3", "str", "str", wd), 24)
+            finally:
+                _START[0] = 0
         for n in sizes:
             for mode in ("quat", "se3"):
                 for wk in KINDS:
@@ -445,6 +497,8 @@ def run(ctx):
     acc.rule = (
         "float alphabet of %d values (9 mantissa patterns x 40 binary "
         "exponents -996..996 x sign, +-0.0, 1e+-300, 17-digit decimals, UTM "
+        "coordinates; every value also as the first field of the first row; "
+        "further: UTM "
         "coordinates, %d epoch stamps with ns fractions); Latin-square "
         "rotation puts every value into every numeric slot; {TUM, KITTI} x "
         "{str, Path, handle}^2 x {positions+quaternions, matrices} x sizes "
@@ -466,6 +520,14 @@ def replay(part, case):
 
 
 def _replay(part, case):
+    _START[0] = case.get("start", 0)
+    try:
+        return _replay2(part, case)
+    finally:
+        _START[0] = 0
+
+
+def _replay2(part, case):
     F = alphabet()
     wd = tempfile.mkdtemp(dir=os.getcwd(), prefix="c06r_")
     if part == "tum":
